@@ -277,5 +277,75 @@ func CopyProbe() (out []ProbeEvent) {
 		ok, _ := r.checkB(sq, r.ideal, want)
 		return []ProbeOp{{"collective relinearisation key relinearises", ok, ""}}
 	})
+	run2("multiparty.EvaluationKeyGenProtocol", all["bgv97"], config{Proto: "ks", InLvl: 3, OutLvl: 3, LgSigma: 3, Sc: "default", F: "none"}, func(r *run) []ProbeOp {
+		p := r.s.p
+		pr := multiparty.NewEvaluationKeyGenProtocol(p)
+		cp := pr.ShallowCopy()
+		crs, _ := sampling.NewKeyedPRNG([]byte("crs"))
+		crp := pr.SampleCRP(crs)
+		s0, s1 := pr.AllocateShare(), cp.AllocateShare()
+		if err := pr.GenShare(r.sks[0], r.skOut[0], crp, &s0); err != nil {
+			panic(err)
+		}
+		if err := cp.GenShare(r.sks[1], r.skOut[1], crp, &s1); err != nil {
+			panic(err)
+		}
+		if err := cp.AggregateShares(s0, s1, &s0); err != nil {
+			panic(err)
+		}
+		evk := rlwe.NewEvaluationKey(p)
+		if err := cp.GenEvaluationKey(s0, crp, evk); err != nil {
+			panic(err)
+		}
+		out := rlwe.NewCiphertext(p, 1, r.ct.Level())
+		if err := rlwe.NewEvaluator(p, nil).ApplyEvaluationKey(r.ct, evk, out); err != nil {
+			panic(err)
+		}
+		ok, _ := r.checkB(out, r.idealO, r.msgB)
+		return []ProbeOp{{"collective evaluation key re-encrypts to the ideal target secret", ok, ""}}
+	})
+	// share conversions: party 0 on the constructed instances, party 1 on copies
+	run2("mpbgv.EncToShare+ShareToEnc", all["bgv97"], config{Proto: "e2s", InLvl: 3, OutLvl: 3, LgSigma: 20, Sc: "default", F: "none"}, func(r *run) []ProbeOp {
+		bp := *r.s.bgv
+		p := r.s.p
+		e2s, err := mpbgv.NewEncToShareProtocol(bp, r.noiseDist())
+		if err != nil {
+			panic(err)
+		}
+		s2e, err := mpbgv.NewShareToEncProtocol(bp, r.noiseDist())
+		if err != nil {
+			panic(err)
+		}
+		e2sC, s2eC := e2s.ShallowCopy(), s2e.ShallowCopy()
+		lvl := r.ct.Level()
+		sec0, sec1 := mpbgv.NewAdditiveShare(bp), mpbgv.NewAdditiveShare(bp)
+		pub0, pub1 := e2s.AllocateShare(lvl), e2sC.AllocateShare(lvl)
+		e2s.GenShare(r.sks[0], r.ct, &sec0, &pub0)
+		e2sC.GenShare(r.sks[1], r.ct, &sec1, &pub1)
+		if err := e2s.AggregateShares(pub0, pub1, &pub0); err != nil {
+			panic(err)
+		}
+		rec := mpbgv.NewAdditiveShare(bp)
+		e2sC.GetShare(&sec0, pub0, r.ct, &rec)
+		crs, _ := sampling.NewKeyedPRNG([]byte("crs-s2e"))
+		crp := s2e.SampleCRP(p.MaxLevel(), crs)
+		c0, c1 := s2e.AllocateShare(p.MaxLevel()), s2eC.AllocateShare(p.MaxLevel())
+		if err := s2e.GenShare(r.sks[0], crp, rec, &c0); err != nil {
+			panic(err)
+		}
+		if err := s2eC.GenShare(r.sks[1], crp, sec1, &c1); err != nil {
+			panic(err)
+		}
+		if err := s2eC.AggregateShares(c0, c1, &c0); err != nil {
+			panic(err)
+		}
+		out := bgv.NewCiphertext(bp, 1, p.MaxLevel())
+		if err := s2eC.GetEncryption(c0, crp, out); err != nil {
+			panic(err)
+		}
+		*out.MetaData = *r.ct.MetaData
+		ok, _ := r.checkB(out, r.ideal, r.msgB)
+		return []ProbeOp{{"shares from a copied instance re-encrypt to the message", ok, ""}}
+	})
 	return
 }
